@@ -310,5 +310,34 @@ def main():
         print(sid, out['checks'])
 
 
-if __name__ == '__main__':
+if __name__ == '__main__' and '--table' not in __import__('sys').argv:
     main()
+
+
+def table():
+    """markdown table for DESIGN.md section 9 (python3 tools/write_meta.py --table)"""
+    rows = ['| change | breaks | where | needs | caught by | check strengthened because of it |', '|---|---|---|---|---|---|']
+    for sid in sorted(META):
+        p = os.path.join(ROOT, 'seeded', sid, 'meta.json')
+        if not os.path.exists(p):
+            continue
+        m = json.load(open(p))
+        ch = m.get('checks') or {}
+        if 'note' in ch:
+            caught = 'n/a (neutralised)'
+        else:
+            caught = ', '.join(k for k, v in ch.items() if v == 'caught') or '—'
+            missed = [k for k, v in ch.items() if v != 'caught']
+            if missed:
+                caught += ' (missed by ' + ', '.join(missed) + ')'
+        needs = m['needs_to_manifest']
+        needs = needs if len(needs) < 170 else needs[:167] + '…'
+        st = m.get('check_strengthened_because_of_it') or '—'
+        st = st if len(st) < 150 else st[:147] + '…'
+        rows.append('| %s | %s | `%s` | %s | %s | %s |' % (sid, m['property_broken'], m['file'].split(' ')[0].replace('adsg_core/', ''),
+                                                        needs, caught, st))
+    return '\n'.join(rows)
+
+
+if __name__ == '__main__' and '--table' in __import__('sys').argv:
+    print(table())
